@@ -223,9 +223,10 @@ def c05(ctx):
                 ctx.check('length', cval(v) == 0, _ob_site(e), 'a read-only variable reports a non-zero written size')
             elif not ro_possible:
                 # the decoded size: the same quantity that indexed the last store of this decoder
-                offs = [x['off'] for x in t.events if x['k'] == 'wr' and x['region'][0] == 'vdata' and x['fn'] == e['fn']]
-                ok = is_lin(v) and not v.is_const() or (cval(v) is not None and cval(v) > 0)
-                ctx.check('length', ok, _ob_site(e), 'the decoded length handed to the variable callback is %s' % (v,))
+                wr_ = [x for x in t.events if x['k'] == 'wr' and x['region'][0] == 'vdata' and x['fn'] == e['fn']]
+                # the decoded size: the index of the terminating NUL, or one past the last byte stored
+                ok = is_lin(v) and (any(cval(x['val']) == 0 and x['off'] == v for x in wr_) or any(x['off'].addc(1) == v for x in wr_))
+                ctx.check('length', ok, _ob_site(e), 'the length handed to the variable callback (%s) is not the decoded length' % (v,))
     return ctx
 
 
@@ -287,6 +288,12 @@ def c04(ctx):
             key = (e['line'], e['fn'])
             table.setdefault(key, []).append((e, ds, vt, t))
     ctx.extra['numeric_store_sites'] = len(table)
+    validators = set(fn for (_, fn) in table)
+    for t in ts:
+        for e in t.evs('conv'):
+            if e['fn'] in validators:
+                ctx.check('range-table', False, _ob_site(e),
+                          'a value in [%s, %s] is narrowed to %d bits before being stored: out-of-range arguments are not rejected' % (e.get('lo'), e.get('hi'), e['bits']))
     for (line, fn), lst in sorted(table.items()):
         e0 = lst[0][0]
         lo, hi, signed, width = TYPES[e0['qt']]
@@ -406,17 +413,13 @@ def c08(ctx):
             # write-only: nothing loaded from the variable reaches the output or a decision
             if 'FORMAT_READ_ARGS' in t.frm and 'AFTER' not in t.frm:
                 vname = 'VAR' if which == 'cmd' else 'UVAR'
-                acc = t.raw.facts.iv.get(vname + '.access')
-                if acc is None or not (acc[0] == acc[1] == WO):
-                    if acc is not None and acc[0] <= WO <= acc[1] and WO not in t.raw.facts.ex.get(vname + '.access', ()):
-                        # access not decided on this path: it never looked at it
-                        loads = [e for e in t.events if e['k'] == 'rd' and e['region'][0] == 'vdata']
-                        used = _tainted_use(t, which)
-                        ctx.check('wo-flow', not (loads and used), t.site(loads[0] if loads else None),
-                                  'variable data is formatted without consulting the access mode')
+                acc = t.raw.facts.iv.get(vname + '.access', (RW, WO))
+                wo_possible = acc[0] <= WO <= acc[1] and WO not in t.raw.facts.ex.get(vname + '.access', ())
+                if not wo_possible:
                     continue
+                # on a path that is possible for a write-only variable nothing loaded from it may matter
                 used = _tainted_use(t, which)
-                ctx.check('wo-flow', not used, t.site(), 'contents of a write-only variable influence the output: %s' % (used[:3],))
+                ctx.check('wo-flow', not used, t.site(), 'contents of a write-only variable can influence the output: %s' % (used[:3],))
     ctx.extra['variable_store_events'] = n_st
     # gates: formatting needs something readable, decoding something writable
     for t in transitions(ctx, 'cmd')[1]:
@@ -433,7 +436,7 @@ def c08(ctx):
 
 def _tainted_use(t, which):
     """uses of atoms loaded from variable storage: as output, or refined by a branch"""
-    taint = set(a for a, p in t.raw.prov.items() if p[0][0] == 'vdata')
+    taint = set(e['atom'] for e in t.events if e['k'] == 'rd' and e['region'][0] == 'vdata' and e.get('atom'))
     if not taint:
         return []
     used = []
